@@ -21,7 +21,6 @@ from odl.space import tensor_space
 from odl.util import (
     normalized_scalar_param_list, resize_array, safe_int_conv, writable_array)
 from odl.util.numerics import _SUPPORTED_RESIZE_PAD_MODES
-from odl.util.utility import nullcontext
 
 __all__ = ('Resampling', 'ResizingOperator')
 
@@ -110,11 +109,14 @@ class Resampling(Operator):
             x, self.domain.grid.coord_vectors, self.interp
         )
 
-        out_ctx = nullcontext() if out is None else writable_array(out)
-        with out_ctx as out_arr:
-            return point_collocation(
-                interpolator, self.range.meshgrid, out=out_arr
-            )
+        if out is None:
+            return point_collocation(interpolator, self.range.meshgrid)
+        else:
+            with writable_array(out) as out_arr:
+                point_collocation(
+                    interpolator, self.range.meshgrid, out=out_arr
+                )
+            return out
 
     @property
     def inverse(self):
